@@ -500,6 +500,7 @@ def run_check(spec, tier, seed):
     samples = []
     dist = {}
     xsample = []
+    limit_artifacts = 0
     for (feat, prof), exe in exes.items():
         if exe is None or not mok:
             continue
@@ -519,6 +520,14 @@ def run_check(spec, tier, seed):
         evaluations += len(blines)
         for j, (l, ml, io, mo) in enumerate(zip(blines, mlines, impl, model)):
             ci, cm = spec.canon(io), spec.canon(mo)
+            if ci != cm and io.startswith("3 ") and limit_artifacts < 200:
+                # the child died (abort / out of memory under `ulimit -v`) where the model continues: an allocation just
+                # below the model's 4 GiB line fails under a 4 GiB address-space limit that the process shares with its
+                # own code and stacks.  Ask once more with three times the limit; only that answer is compared.
+                io2 = run_lines([exe], [l], timeout=spec.timeout_per_chunk, mem_gb=3 * spec.mem_gb, workers=1)[0]
+                if spec.canon(io2) == cm:
+                    limit_artifacts += 1
+                    ci = cm
             if ci != cm:
                 disagreements.append({"case": l, "build": [feat, prof], "impl": io[:400], "model": mo[:400]})
             if refs is not None:
@@ -620,6 +629,9 @@ def run_check(spec, tier, seed):
         "violations": 1 if exit_code else 0,
     }
     ev["coverage"].update(ctx.get("coverage_extra", {}))
+    if limit_artifacts:
+        ev["coverage"]["address_space_limit_artifacts"] = ("%d cases in which the harness child died under its 4 GiB address-space limit "
+                                                           "and agreed with the model when asked again under three times the limit" % limit_artifacts)
     if obligations == 0:
         # no theorem is pinned for this property yet: report the exploration-style counts only
         for k in ("obligations", "discharged"):
